@@ -1996,10 +1996,22 @@ func (h *handler) getPartitionLog(ctx context.Context, topic string, partition i
 			if err != nil {
 				return nil, err
 			}
+			// Flush callbacks run outside the log's lock, so two of them can reach
+			// the store in either order. Serialise them and never move the
+			// published end offset backwards.
+			var publishMu sync.Mutex
+			published := nextOffset - 1
 			plog := storage.NewPartitionLog(h.s3Namespace, topic, partition, nextOffset, h.s3, h.cache, h.logConfig, func(cbCtx context.Context, artifact *storage.SegmentArtifact) {
+				publishMu.Lock()
+				defer publishMu.Unlock()
+				if artifact.LastOffset < published {
+					return
+				}
 				if err := h.store.UpdateOffsets(cbCtx, topic, partition, artifact.LastOffset); err != nil {
 					h.logger.Error("update offsets failed", "error", err, "topic", topic, "partition", partition)
+					return
 				}
+				published = artifact.LastOffset
 			}, h.recordS3Op, h.s3sem)
 			lastOffset, err := plog.RestoreFromS3(ctx)
 			if err != nil {
@@ -2009,6 +2021,12 @@ func (h *handler) getPartitionLog(ctx context.Context, topic string, partition i
 			if lastOffset >= nextOffset {
 				if err := h.store.UpdateOffsets(ctx, topic, partition, lastOffset); err != nil {
 					h.logger.Error("sync offsets from S3 failed", "error", err, "topic", topic, "partition", partition)
+				} else {
+					publishMu.Lock()
+					if lastOffset > published {
+						published = lastOffset
+					}
+					publishMu.Unlock()
 				}
 			}
 
